@@ -288,6 +288,37 @@ def check(model, rep, tier):
               witness='nested tries: raise KeyboardInterrupt() under an inner '
               '`except Exception` and an outer bare except')
 
+  mirror_rule(model, rep, 'CFG-MIRROR')
+  gb = model.cls(CFG, 'GraphBuilder')
+
+  # ---------------------------------------------------------------- CFG-LEAVES
+  shr = []
+  for name, fi in gb.methods.items():
+    for n in ast.walk(fi.node):
+      if isinstance(n, ast.Call) and isinstance(n.func, ast.Attribute) and \
+          core.norm(n.func.value) == 'self.leaves' and n.func.attr in (
+              'clear', 'remove', 'discard', 'pop', 'difference_update',
+              'intersection_update', 'symmetric_difference_update'):
+        shr.append('%s: %s' % (name, core.norm(n)))
+      if isinstance(n, ast.AugAssign) and core.norm(n.target) == 'self.leaves' and \
+          not isinstance(n.op, ast.BitOr):
+        shr.append('%s: %s' % (name, core.norm(n)))
+  rep.check(not shr, 'CFG-LEAVES', '%s:GraphBuilder:never-shrunk-in-place' % CFG,
+            'self.leaves is shrunk in place; exit_finally_section keeps a '
+            'reference to that very set as the end of the finally subgraph, so '
+            'jumps wired later lose the edges out of the finally body',
+            {'sites': shr},
+            witness='loop body ending in try/finally whose try has a break '
+            'under an if')
+  aj = gb.methods.get('_add_jump_node')
+  src = core.norm(aj.node)
+  ok = 'self.leaves = set()' in src and 'self.finally_sections[node] = guards' in src
+  rep.check(ok, 'CFG-LEAVES', '%s:jump-empties-leaves' % aj.site,
+            'a jump node must empty the leaf set (nothing follows it lexically) '
+            'and remember its finally guards', line=aj.node.lineno)
+
+
+def mirror_rule(model, rep, rule):
   # ---------------------------------------------------------------- CFG-MIRROR
   gb = model.cls(CFG, 'GraphBuilder')
   cn = gb.methods.get('_connect_nodes')
@@ -308,7 +339,7 @@ def check(model, rep, tier):
   find_block(cn.node.body)
   ok = len(blocks) == 1 and 'second.prev.add(first)' in blocks[0] and \
       'self.forward_edges.add((first, second))' in blocks[0]
-  rep.check(ok, 'CFG-MIRROR', '%s:three-updates-together' % cn.site,
+  rep.check(ok, rule, '%s:three-updates-together' % cn.site,
             'next, prev and forward_edges must be updated together for every '
             'edge: statement-level successor sets are computed from '
             'forward_edges, so an edge missing there disappears from '
@@ -336,7 +367,7 @@ def check(model, rep, tier):
   allowed = {'GraphBuilder._connect_nodes', 'Node.__init__', 'Node.freeze',
              'GraphBuilder.reset'}
   bad = sorted({w for w in writers if w[0] not in allowed})
-  rep.check(not bad, 'CFG-MIRROR', '%s:only-the-primitive-writes-edges' % CFG,
+  rep.check(not bad, rule, '%s:only-the-primitive-writes-edges' % CFG,
             'edges are written outside _connect_nodes / freeze',
             {'writers': bad})
   bld = gb.methods.get('build')
@@ -345,36 +376,11 @@ def check(model, rep, tier):
       'stmts_exited = self.owners[first] - self.owners[second]' in src and \
       'stmts_entered = self.owners[second] - self.owners[first]' in src and \
       'stmt_next[stmt].add(second)' in src and 'stmt_prev[stmt].add(first)' in src
-  rep.check(ok, 'CFG-MIRROR', '%s:statement-edges-from-forward-edges' % bld.site,
+  rep.check(ok, rule, '%s:statement-edges-from-forward-edges' % bld.site,
             'stmt_next / stmt_prev must be exactly the forward edges that leave '
             '/ enter a statement\'s owned nodes', line=bld.node.lineno)
   fz = model.func(CFG, 'Node.freeze')
   ok = 'self.next = frozenset(self.next)' in core.norm(fz.node)
-  rep.check(ok, 'CFG-MIRROR', '%s:freeze-keeps-all' % fz.site,
+  rep.check(ok, rule, '%s:freeze-keeps-all' % fz.site,
             'freezing must keep every successor', line=fz.node.lineno)
 
-  # ---------------------------------------------------------------- CFG-LEAVES
-  shr = []
-  for name, fi in gb.methods.items():
-    for n in ast.walk(fi.node):
-      if isinstance(n, ast.Call) and isinstance(n.func, ast.Attribute) and \
-          core.norm(n.func.value) == 'self.leaves' and n.func.attr in (
-              'clear', 'remove', 'discard', 'pop', 'difference_update',
-              'intersection_update', 'symmetric_difference_update'):
-        shr.append('%s: %s' % (name, core.norm(n)))
-      if isinstance(n, ast.AugAssign) and core.norm(n.target) == 'self.leaves' and \
-          not isinstance(n.op, ast.BitOr):
-        shr.append('%s: %s' % (name, core.norm(n)))
-  rep.check(not shr, 'CFG-LEAVES', '%s:GraphBuilder:never-shrunk-in-place' % CFG,
-            'self.leaves is shrunk in place; exit_finally_section keeps a '
-            'reference to that very set as the end of the finally subgraph, so '
-            'jumps wired later lose the edges out of the finally body',
-            {'sites': shr},
-            witness='loop body ending in try/finally whose try has a break '
-            'under an if')
-  aj = gb.methods.get('_add_jump_node')
-  src = core.norm(aj.node)
-  ok = 'self.leaves = set()' in src and 'self.finally_sections[node] = guards' in src
-  rep.check(ok, 'CFG-LEAVES', '%s:jump-empties-leaves' % aj.site,
-            'a jump node must empty the leaf set (nothing follows it lexically) '
-            'and remember its finally guards', line=aj.node.lineno)
